@@ -17,12 +17,13 @@ type LayoutVariant struct {
 	MdatFirst  bool // mdat directly after ftyp, before moov
 	MdatLast   bool // mdat moved to the very end
 	FreePad    int  // size of a free box put right before mdat (0 = none; >=8)
+	FreeLarge  bool // that free box uses the 64-bit size form (needs FreePad >= 16)
 	EmptyMdat  int  // extra EMPTY mdat box (legal): 0 none, 1 directly after the real one, 2 directly before it, 3 at the very end
 	EmptyLarge bool // the extra empty mdat uses the 64-bit size form (16-byte header, no payload)
 }
 
 func (v LayoutVariant) String() string {
-	return fmt.Sprintf("large=%v mdatFirst=%v mdatLast=%v free=%d emptyMdat=%d/%v", v.LargeMdat, v.MdatFirst, v.MdatLast, v.FreePad, v.EmptyMdat, v.EmptyLarge)
+	return fmt.Sprintf("large=%v mdatFirst=%v mdatLast=%v free=%d/%v emptyMdat=%d/%v", v.LargeMdat, v.MdatFirst, v.MdatLast, v.FreePad, v.FreeLarge, v.EmptyMdat, v.EmptyLarge)
 }
 
 func (v LayoutVariant) emptyMdat() []byte {
@@ -102,6 +103,10 @@ func ApplyLayout(data []byte, v LayoutVariant) ([]byte, error) {
 			fb := make([]byte, v.FreePad)
 			binary.BigEndian.PutUint32(fb, uint32(v.FreePad))
 			copy(fb[4:], "free")
+			if v.FreeLarge && v.FreePad >= 16 {
+				binary.BigEndian.PutUint32(fb, 1)
+				binary.BigEndian.PutUint64(fb[8:], uint64(v.FreePad))
+			}
 			out = append(out, fb...)
 		}
 		empty := v.emptyMdat()
